@@ -52,6 +52,12 @@ def generate(rng, n):
         pool = [gen_image(rng, R, small=rng.random() < 0.7, idx=i) for i in range(rng.randint(2, 6))]
         if rng.random() < 0.3 and len(pool) >= 2:      # an exact value-duplicate as a distinct object
             pool[1] = copy.deepcopy(pool[0])
+        elif rng.random() < 0.5 and len(pool) >= 2 and pool[0]["checksums"]:
+            # the same identity with other checksums: a different digest, or the same digests plus one more
+            pool[1] = copy.deepcopy(pool[0])
+            pool[1]["path"] = pool[0]["path"] + ".other"
+            pool[1]["checksums"] = rng.choice([{"sha256": "f" * 64}, dict(pool[0]["checksums"], sha1="1" * 40),
+                                               {k: v for k, v in list(pool[0]["checksums"].items())[:1]} if len(pool[0]["checksums"]) > 1 else {"md5": "2" * 32}])
         ops = []
         for _ in range(rng.randint(1, 9)):
             k = rng.random()
